@@ -12,6 +12,7 @@ import SwV.Model.C18
 import SwV.Spec.C20
 import SwV.Lemmas.C18
 import SwV.Lemmas.C20
+import SwV.Lemmas.C21
 
 namespace SwV.Props.C20
 open SwV.Model.C18 SwV.Lemmas.C18 SwV.Lemmas.C20
@@ -106,6 +107,26 @@ example : AllowedRun {} [.create ["a"] { isDir := false, tag := 1, chunks := [1,
   refine ⟨⟨rfl, ?_⟩, trivial⟩
   intro q b hb
   simp at hb
+
+/-! ### hard-linked names under the client protocol -/
+
+open SwV.Lemmas.C21 in
+/-- the client's unlink (weed/filesys removeOneFile: data deletion only when the counter says "last name"):
+    in a consistent state the shared chunks are handed to the deletion sink exactly when the LAST name of the
+    identity goes; unlinking one of several names hands over nothing -/
+theorem unlink_emits_exactly_at_last_name (s : St) (inv : TreeInv s) (c : ConsAll s) (n : String) (par : RPath) (ex : Entry)
+    (hm : (n :: par, ex) ∈ s.ents) (hk : ex.hl ≠ 0) :
+    ∃ r, kvGet s ex.hl = some r ∧
+      (nameCount s.ents ex.hl = 1 → (step s (.unlink (n :: par))).2.d = r.chunks) ∧
+      (1 < nameCount s.ents ex.hl → (step s (.unlink (n :: par))).2.d = []) := by
+  rcases (find_of_cons inv hm).2 hk (c _ hk) with ⟨r, hg, hf, hrl, hrf, hrc⟩
+  refine ⟨r, hg, ?_, ?_⟩
+  · intro h1
+    have hle : r.cnt ≤ 1 := by rw [hrc, h1]; decide
+    simp [step, hf, deleteEntry, hrf, hle]
+  · intro h1
+    have hle : ¬ r.cnt ≤ 1 := by rw [hrc]; omega
+    simp [step, hf, deleteEntry, hrf, hle]
 
 /-! ### what is NOT true of the code (known findings): witnesses
 
